@@ -34,10 +34,10 @@ impl Ctx {
     /// which of the two selection routines decides the observed token
     fn path(self) -> &'static str {
         match self {
-            // a SEQUENCE OF element is hoisted into an `Anonymous…` newtype built by generate_integer,
-            // a DEFAULT fn's return type comes from type_to_tokens: both use Integer::int_type
-            Ctx::Assign | Ctx::Value | Ctx::Ref | Ctx::Default | Ctx::Element => "assign",
-            Ctx::Component => "component",
+            // a SEQUENCE OF element is hoisted into an `Anonymous…` newtype built by generate_integer
+            // (Integer::int_type); since fix 3464cdb a DEFAULT fn's return type is the member's own type
+            Ctx::Assign | Ctx::Value | Ctx::Ref | Ctx::Element => "assign",
+            Ctx::Component | Ctx::Default => "component",
         }
     }
 }
@@ -47,17 +47,19 @@ pub struct Case {
     pub ctx: Ctx,
     pub cons: Vec<Cons>,
     pub lit: Option<i128>,
+    /// markers are written behind the parenthesised element: `((a..b), ...)` instead of `(a..b, ...)`
+    pub outer: bool,
 }
 
-fn cons_asn(c: &Cons) -> String {
-    match c {
-        Cons::Range { lo, hi, ext } => format!(
-            "({}..{}{})",
-            lo.map_or("MIN".to_string(), |v| v.to_string()),
-            hi.map_or("MAX".to_string(), |v| v.to_string()),
-            if *ext { ", ..." } else { "" }
-        ),
-        Cons::Single { v, ext } => format!("({}{})", v, if *ext { ", ..." } else { "" }),
+fn cons_asn(c: &Cons, outer: bool) -> String {
+    let (body, ext) = match c {
+        Cons::Range { lo, hi, ext } => (format!("{}..{}", lo.map_or("MIN".to_string(), |v| v.to_string()), hi.map_or("MAX".to_string(), |v| v.to_string())), *ext),
+        Cons::Single { v, ext } => (v.to_string(), *ext),
+    };
+    match (ext, outer) {
+        (false, _) => format!("({body})"),
+        (true, false) => format!("({body}, ...)"),
+        (true, true) => format!("(({body}), ...)"),
     }
 }
 
@@ -70,7 +72,7 @@ fn cons_sx(c: &Cons) -> String {
 
 impl Case {
     fn ty(&self) -> String {
-        format!("INTEGER {}", self.cons.iter().map(cons_asn).collect::<Vec<_>>().join(""))
+        format!("INTEGER {}", self.cons.iter().map(|c| cons_asn(c, self.outer)).collect::<Vec<_>>().join(""))
     }
     pub fn asn(&self, id: usize) -> String {
         let ty = self.ty();
@@ -182,13 +184,19 @@ pub fn gen_cases(cfg: &RunCfg) -> (Vec<Case>, bool) {
                 let cons = vec![Cons::Range { lo: *lo, hi: *hi, ext }];
                 let lit = lo.or(*hi).unwrap_or(0);
                 for ctx in [Ctx::Assign, Ctx::Component, Ctx::Element] {
-                    cases.push(Case { ctx, cons: cons.clone(), lit: None });
+                    cases.push(Case { ctx, cons: cons.clone(), lit: None, outer: false });
+                    if ext {
+                        cases.push(Case { ctx, cons: cons.clone(), lit: None, outer: true });
+                    }
                 }
                 for ctx in [Ctx::Value, Ctx::Default, Ctx::Ref] {
-                    cases.push(Case { ctx, cons: cons.clone(), lit: Some(lit) });
+                    cases.push(Case { ctx, cons: cons.clone(), lit: Some(lit), outer: false });
+                    if ext {
+                        cases.push(Case { ctx, cons: cons.clone(), lit: Some(lit), outer: true });
+                    }
                     if let (Some(h), true) = (hi, lo.is_some()) {
                         if *h != lit && ctx != Ctx::Ref {
-                            cases.push(Case { ctx, cons: cons.clone(), lit: Some(*h) });
+                            cases.push(Case { ctx, cons: cons.clone(), lit: Some(*h), outer: false });
                         }
                     }
                 }
@@ -199,10 +207,10 @@ pub fn gen_cases(cfg: &RunCfg) -> (Vec<Case>, bool) {
         for ext in [false, true] {
             let cons = vec![Cons::Single { v: *v, ext }];
             for ctx in [Ctx::Assign, Ctx::Component, Ctx::Element] {
-                cases.push(Case { ctx, cons: cons.clone(), lit: None });
+                cases.push(Case { ctx, cons: cons.clone(), lit: None, outer: false });
             }
             for ctx in [Ctx::Value, Ctx::Default, Ctx::Ref] {
-                cases.push(Case { ctx, cons: cons.clone(), lit: Some(*v) });
+                cases.push(Case { ctx, cons: cons.clone(), lit: Some(*v), outer: false });
             }
         }
     }
@@ -225,7 +233,8 @@ pub fn gen_cases(cfg: &RunCfg) -> (Vec<Case>, bool) {
         }
         let ctx = *rng.pick(&[Ctx::Assign, Ctx::Component, Ctx::Element, Ctx::Value, Ctx::Default, Ctx::Ref]);
         let lit = matches!(ctx, Ctx::Value | Ctx::Default | Ctx::Ref).then_some(anchor);
-        cases.push(Case { ctx, cons, lit });
+        let outer = rng.chance(1, 3);
+        cases.push(Case { ctx, cons, lit, outer });
     }
     (cases, true)
 }
@@ -233,7 +242,7 @@ pub fn gen_cases(cfg: &RunCfg) -> (Vec<Case>, bool) {
 pub fn run(cfg: &RunCfg) -> Report {
     let mut rep = Report::new(
         "C06",
-        "every (lower, upper) pair of the 53-point boundary set (MIN, MAX, 0, ±1, ±2^k, ±2^k±1, k∈{7,8,15,16,31,32,63,64}) × extension marker × contexts {type assignment, component, SEQUENCE OF element, value assignment, DEFAULT, value through a type reference}, single values, plus seeded random serial combinations, plus unions and intersections of two or three ranges / single values from the boundary set in either operand order (with and without a marker, with and without a further serial constraint) on components and type assignments; a case is non-trivial when it compiled and its integer token was observed; distinct = distinct (context, constraints, literal)",
+        "every (lower, upper) pair of the 53-point boundary set (MIN, MAX, 0, ±1, ±2^k, ±2^k±1, k∈{7,8,15,16,31,32,63,64}) × extension marker (written `(a..b, ...)` and `((a..b), ...)`) × contexts {type assignment, component, SEQUENCE OF element, value assignment, DEFAULT, value through a type reference}, single values, plus seeded random serial combinations, plus unions and intersections of two or three ranges / single values from the boundary set in either operand order (with and without a marker, with and without a further serial constraint) on components and type assignments; a case is non-trivial when it compiled and its integer token was observed; distinct = distinct (context, constraints, literal)",
     );
     if let Some(r) = &cfg.replay {
         let r = r.get("case").unwrap_or(r);
@@ -330,7 +339,7 @@ pub fn run(cfg: &RunCfg) -> Report {
         let (model, tok_ok, lit_ok, class) = (parts[0], parts[1] == "t", parts[2], parts[3]);
         let class = if class == "none" { "" } else { class };
         let case_json = json!({"ctx": c.ctx.name(), "asn1": c.asn(i), "cons": c.cons.iter().map(cons_sx).collect::<Vec<_>>(),
-            "lit": c.lit.map(|v| v.to_string()), "observed_token": tok, "observed_literal": lit.map(|v| v.to_string()), "model_token": model});
+            "lit": c.lit.map(|v| v.to_string()), "outer": c.outer, "observed_token": tok, "observed_literal": lit.map(|v| v.to_string()), "model_token": model});
         if k % 997 == 0 {
             rep.sample(case_json.clone());
         }
@@ -438,7 +447,7 @@ fn run_sets(sets: &[SetCase], rep: &mut Report) {
                 let Some(m) = mods.first() else { continue };
                 for i in idx {
                     rep.evaluations += 1;
-                    let probe = Case { ctx: if sets[i].component { Ctx::Component } else { Ctx::Assign }, cons: vec![], lit: None };
+                    let probe = Case { ctx: if sets[i].component { Ctx::Component } else { Ctx::Assign }, cons: vec![], lit: None, outer: false };
                     match observe(m, &probe, i) {
                         Ok((tok, _)) => {
                             rep.count(if sets[i].component { "set-expression:component" } else { "set-expression:assignment" });
@@ -527,5 +536,5 @@ fn case_from_json(v: &serde_json::Value) -> Option<Case> {
         }
     }
     let lit = v["lit"].as_str().and_then(|s| s.parse().ok());
-    Some(Case { ctx, cons, lit })
+    Some(Case { ctx, cons, lit, outer: v["outer"].as_bool().unwrap_or(false) })
 }
